@@ -605,8 +605,10 @@ class AllocatedScoreSelector:
                  n_seats: int = 1,
                  ) -> List[Candidate]:
         cands = votelib.util.all_scored_candidates(votes)
-        return list(self._distributor.evaluate(
+        elected = self._distributor.evaluate(
             votes,
             n_seats=n_seats,
             max_seats={cand: 1 for cand in cands}
-        ))
+        )
+        # a tie for several seats is listed once per seat it contests
+        return [cand for cand, n in elected.items() for i in range(n)]
